@@ -149,6 +149,13 @@ inline TecmpExpect refTecmp(const uint8_t* p, size_t n)
     if (n < wire::TECMP_HDR + h.plen)
         return r;  // declared payload does not fit the buffer
     const bool exact = (n == wire::TECMP_HDR + h.plen);
+    if (!exact)
+    {
+        // bytes behind the declared payload: whether they count as payload is not pinned down by C15
+        // (the library's own test frames carry such bytes) -> only "returns normally" is demanded
+        r.unspecified = true;
+        return r;
+    }
     const uint8_t* q = p + wire::TECMP_HDR;
     const size_t ps = h.plen;
     TecmpExp base;
@@ -199,6 +206,13 @@ inline TecmpExpect refTecmp(const uint8_t* p, size_t n)
             return r;
         }
         return r;  // unsupported data type
+    }
+    if ((h.mtype == wire::TMT_CMSTATUS || h.mtype == wire::TMT_BUSSTATUS) && h.dtype != 0)
+    {
+        // status messages carry data type 0; what a decoder does with another value (the library treats
+        // one of them as its "invalid" marker) is not pinned down by C15
+        r.unspecified = true;
+        return r;
     }
     if (h.mtype == wire::TMT_CMSTATUS)
     {
